@@ -1,9 +1,30 @@
 // spec/app.rs -- application-layer vocabulary shared by the transport and dispatch contracts.
 pub mod appspec {
     use vstd::prelude::*;
-    /// STUN binding request carrying a CHANGE-REQUEST attribute with the change-port flag
-    /// (defined in contracts/proto__stun.vspec through `stun_change_port_spec`; opaque to L4)
-    pub uninterp spec fn is_stun_change_port(data: Seq<u8>) -> bool;
+    use crate::shim::*;
+    /// ---- attribute walk (mirrors RFC 5389 section 15 TLV layout): attribute at offset i of body is well formed
+    pub open spec fn tlv_ok(b: Seq<u8>, i: int) -> bool {
+        i + 4 <= b.len() && i + 4 + be16(b, i + 2) <= b.len()
+        && (be16(b, i) == 1 ==> be16(b, i + 2) >= 4 && ((b[i + 5] == 1 && be16(b, i + 2) >= 8) || (b[i + 5] == 2 && be16(b, i + 2) >= 20)))
+        && (be16(b, i) == 3 ==> be16(b, i + 2) >= 4)
+    }
+    pub open spec fn tlv_change_port(b: Seq<u8>, i: int) -> bool {
+        be16(b, i) == 3 && (be32(b, i + 4) & 2u32) != 0u32
+    }
+    /// some well-formed attribute reached by walking the TLVs from offset i is a CHANGE-REQUEST with the change-port flag
+    pub open spec fn walk_change_port(b: Seq<u8>, i: int) -> bool
+        decreases b.len() - i
+    {
+        if 0 <= i && i + 4 < b.len() && tlv_ok(b, i) {
+            tlv_change_port(b, i) || walk_change_port(b, i + 4 + be16(b, i + 2))
+        } else { false }
+    }
+    /// C15 / C03: the payload is a STUN message whose attribute list (walked from offset 20 over the declared
+    /// length) contains a well-formed CHANGE-REQUEST with the change-port flag
+    pub open spec fn stun_change_port_req(d: Seq<u8>) -> bool {
+        d.len() >= 20 && d.len() >= 20 + be16(d, 2) && walk_change_port(d.subrange(20, 20 + be16(d, 2)), 0)
+    }
+    pub open spec fn is_stun_change_port(data: Seq<u8>) -> bool { stun_change_port_req(data) }
     /// upper bound of every application reply (proved per responder); keeps every length field exact
     pub open spec fn APP_REPLY_MAX() -> int { 60000 }
     /// largest frame handed to reply() (pnet datalink read buffer), C01's own quantifier
